@@ -7,6 +7,20 @@ ROOT = os.path.dirname(os.path.dirname(os.path.abspath(__file__)))
 ALL = ["C%02d" % i for i in range(1, 20)]
 
 CHECKS = {
+    "C01": {
+        "spec": "specs/Runtime.tla + RuntimeTrace.tla",
+        "text": "Runtime.tla models the daemon runtime's observable protocol (API calls and returns, payload life cycles of all three flavours, phase changes, failure / interrupt / shutdown triggers, the accept guard); one action per observable event, all interleavings. Per scenario shape (failing flavour x failure kind x registration time x bystander population) TLC checks FailStopSafe, CauseFaithful and the liveness property FailStopLive on the model, then generates behaviours by simulation; the driver forces each behaviour's controllable actions onto a real ServiceRunner with gated payloads (the runtime's own steps run freely, perturbed by seeded jitter at the guarded hooks) and TLC validates the recorded trace: every formula on the observed state, every event against the specification's action.",
+        "note": "protocol-level model (asyncio/trio internals trusted); scenarios without a concurrent stop request; liveness observed at a quiescence marker after a 4 s wait; Python 3.12 / trio 0.34.",
+        "design": "5/C01, 4.1",
+        "technique": "TLA+ model checking (TLC, safety + liveness) of the runtime protocol + TLC-simulated behaviours forced onto the real runtime + trace validation",
+    },
+    "C02": {
+        "spec": "specs/Runtime.tla + RuntimeTrace.tla",
+        "text": "Same specification and pipeline as C01, for the termination formulas CleanupBeforeEnd, NoStepAfterEnd and ThreadsDoNotBlockEnd: shapes are termination triggers (failure of each flavour and kind, SIGINT, shutdown()) x populations of running coroutine payloads (sleeping / spinning, synchronous and shielded cleanup of 0..2 steps, adopted from threads or other payloads) x a blocked thread payload, plus targeted scripts for every failure kind and for payloads adopted while the runtime is already closing. 'Before the call returns' is an ordering fact of the single global event sequence, not a timestamp comparison.",
+        "note": "as C01; generated payloads have finite cleanup; one known finding (F12: SystemExit raised by a payload).",
+        "design": "5/C02, 4.1",
+        "technique": "TLA+ model checking (TLC, safety + liveness) of the runtime protocol + TLC-simulated behaviours forced onto the real runtime + trace validation",
+    },
     "C05": {
         "spec": "specs/YamlPipeline.tla + YamlPipelineTrace.tla",
         "text": "YamlPipeline.tla models the two phases of loading a pipeline section (tags become templates in document order; the PipelineTranslator constructs last to first, passing the previous object as target; one step per constructor call). TLC checks Linked / OnceLastToFirst / NoPartial / StopsAtFailure for all pipelines of length 1..4 (thorough 6) x four syntactic forms per position x failing position and emits every case; each is rendered to YAML twice (seeded argument shapes incl. nested lazy/eager tags, head kind, failure kind), loaded by the real load() with fixture plugins from a fixture dist-info, and the constructor calls, received arguments and returned list (identity of target vs next element) are validated by TLC.",
